@@ -569,9 +569,10 @@ def c_iout(o):
         " " + clist(f"({cstr(k)}, {clist(cstr(x) for x in v)})" for k, v in s["fna"]) + "))")
     i = o["int"]
     errs = clist(str(ERRTAG.get(e, 99)) for e in o.get("errs", []))
-    hints = clist(str(MODID.get(h, 99)) for h in i["hints"])
-    vc = clist("None" if x is None else f"(Some {clist(cstr(v) for v in x)})" for x in i["vc"])
-    return f"(Build_iout {c_res(o['r'])} {errs} {snap} {i['hits']} {i['misses']} {hints} {cbool(i['tpl_ok'])} {vc})"
+    hints = "None" if i["hints"] is None else "(Some " + clist(str(MODID.get(h, 99)) for h in i["hints"]) + ")"
+    vc = "None" if i["vc"] is None else "(Some " + clist("None" if x is None else f"(Some {clist(cstr(v) for v in x)})" for x in i["vc"]) + ")"
+    cache = "None" if i.get("cache") is None else f"(Some ({i['cache']['hits']}, {i['cache']['misses']}))"
+    return f"(Build_iout {c_res(o['r'])} {errs} {snap} {cache} {hints} {cbool(i['tpl_ok'])} {vc})"
 
 def history_to_coq(c, r):
     if "exc" in r:
